@@ -17,6 +17,25 @@ from .exc import CANCEL, ExcT, FaultModel, decide_nonnull, handler_type_names
 from .loader import FuncNode, Program, U, Unit
 
 
+def const_truth(e: ast.AST) -> bool | None:
+    """Truth of a test decidable from constants alone (`False and X`, `True or X`, `not False`, literals)."""
+    if isinstance(e, ast.Constant):
+        return bool(e.value)
+    if isinstance(e, ast.UnaryOp) and isinstance(e.op, ast.Not):
+        r = const_truth(e.operand)
+        return None if r is None else (not r)
+    if isinstance(e, ast.BoolOp):
+        vals = [const_truth(v) for v in e.values]
+        if isinstance(e.op, ast.And):
+            if any(v is False for v in vals):
+                return False
+            return True if all(v is True for v in vals) else None
+        if any(v is True for v in vals):
+            return True
+        return False if all(v is False for v in vals) else None
+    return None
+
+
 class Node:
     __slots__ = ('id', 'kind', 'ast', 'unit', 'succ', 'exc', 'tag')
 
@@ -162,6 +181,8 @@ class CFG:
         if isinstance(st, ast.If):
             n = self._new('if', st)
             dec = decide_nonnull(st.test, self.nonnull) if self.nonnull else None
+            if dec is None:
+                dec = const_truth(st.test)
             if dec is not False:
                 n.add('true', self._block(st.body, k))
             if dec is not True:
@@ -173,8 +194,10 @@ class CFG:
             after = self._block(st.orelse, k) if st.orelse else k.nxt
             kb = k.with_(nxt=head, brk=lambda: k.nxt, cnt=lambda: head)
             head.add('true', self._block(st.body, kb))
-            const_true = isinstance(st.test, ast.Constant) and bool(st.test.value) is True
-            if not const_true:
+            ct = const_truth(st.test)
+            if ct is False:
+                head.succ.clear()  # body is dead code
+            if ct is not True:
                 head.add('false', after)
             self._exc_edges(head, st, k)
             return head
